@@ -418,7 +418,8 @@ json_print_attribute(struct jsonpr_ctx *pctx, const struct lyd_node_opaq *node)
     struct lyd_attr *attr;
 
     for (attr = node->attr; attr; attr = attr->next) {
-        json_print_member2(pctx, &node->node, attr->format, &attr->name, 0);
+        /* metadata names are always module-qualified, the module of the node is not relevant */
+        json_print_member2(pctx, NULL, attr->format, &attr->name, 0);
 
         if (attr->hints & (LYD_VALHINT_STRING | LYD_VALHINT_OCTNUM | LYD_VALHINT_HEXNUM | LYD_VALHINT_NUM64)) {
             json_print_string(pctx->out, attr->value);
